@@ -158,7 +158,7 @@ def check_case(ctx, case):
     layout = None
     if case['chunks'] is not None:
         ntrail = case.get('trailer_lines') or 0
-        wire, layout = encode_chunked(body, case['chunks'], trailers=['X-T%d: v' % j for j in range(ntrail)])
+        wire, layout = encode_chunked(body, case['chunks'], [{'upper': bool((S + B) % 2), 'zeros': (S + B) % 3}], trailers=['X-T%d: v' % j for j in range(ntrail)])        # (hex letters in either case)
         if case.get('neg_line'):
             # a size line with a minus sign (an "empty chunk" that int(x, 16) would read as a negative number) in front of the j-th chunk
             j, val = case['neg_line']
